@@ -744,4 +744,146 @@ theorem accepts_conservation {j : Nat} {st st' : List Call × Phase} {es : List 
         simp only [List.filterMap_cons, this.1, this.2]
         exact ih'
 
+/-! ### every completed call with the linearization events it performed -/
+
+def Lin.tid : Lin → Nat
+  | .push k _ => k
+  | .pop k _ => k
+
+/-- Thread `j`'s completed calls in order, each as (the lin events the thread emitted since
+its previous return, the return).  `acc` = lin events of the call in progress. -/
+def segs (j : Nat) : List Lin → List TEv → List (List Lin × Ret)
+  | _, [] => []
+  | acc, .lin l :: es => if l.tid = j then segs j (acc ++ [l]) es else segs j acc es
+  | acc, .ret k r :: es => if k = j then (acc, r) :: segs j [] es else segs j acc es
+
+/-- What a completed call may have done to the abstract queue, given what it returned:
+`Push(v)` exactly one append of `v`; `(x, true)` exactly one removal, of `x`; `(_, false)`
+and `Len` NOTHING — no successful head CAS, no publication. -/
+def SegOk (j : Nat) : List Lin × Ret → Prop
+  | (ls, .push) => ∃ v, ls = [.push j v]
+  | (ls, .pop x true) => ls = [.pop j x]
+  | (ls, .pop _ false) => ls = []
+  | (ls, .len _) => ls = []
+  | (_, .panic) => False
+
+/-- lin events of the call in progress, as recorded by the automaton state -/
+def accOf (j : Nat) (st : List Call × Phase) : List Lin :=
+  match st.2 with
+  | .idle => []
+  | .popped x => [.pop j x]
+  | .pushed =>
+    match st.1 with
+    | .push v :: _ => [.push j v]
+    | _ => []
+
+theorem segs_ok {j : Nat} {st st' : List Call × Phase} {es : List TEv}
+    (h : accepts j st es = some st') : ∀ sg ∈ segs j (accOf j st) es, SegOk j sg := by
+  induction es generalizing st with
+  | nil => intro sg hsg; simp [segs] at hsg
+  | cons e es ih =>
+    simp only [accepts] at h
+    cases h1 : auto j st e with
+    | none => rw [h1] at h; simp at h
+    | some st1 =>
+      rw [h1, Option.bind_some] at h
+      have ih' := ih h
+      unfold auto at h1
+      by_cases ht : e.tid = j
+      · rw [if_pos ht] at h1
+        obtain ⟨c, p⟩ := st
+        unfold autoOwn at h1
+        cases c with
+        | nil => simp at h1
+        | cons c0 rest =>
+          dsimp only at h1
+          cases e with
+          | lin l =>
+            cases l with
+            | push k w =>
+              simp only [TEv.tid] at ht
+              dsimp only at h1
+              split at h1
+              · rename_i hc; obtain rfl := Option.some.inj h1
+                obtain ⟨hc1, hc2⟩ := hc
+                subst hc1 hc2 ht
+                simpa [segs, Lin.tid, accOf] using ih'
+              · simp at h1
+            | pop k x =>
+              simp only [TEv.tid] at ht
+              dsimp only at h1
+              split at h1
+              · rename_i hc; obtain rfl := Option.some.inj h1
+                obtain ⟨_, hc2⟩ := hc
+                subst hc2 ht
+                simpa [segs, Lin.tid, accOf] using ih'
+              · simp at h1
+          | ret k r =>
+            simp only [TEv.tid] at ht
+            subst ht
+            cases r with
+            | push =>
+              dsimp only at h1
+              split at h1
+              · rename_i hc; obtain rfl := Option.some.inj h1
+                obtain ⟨hc1, hc2⟩ := hc
+                subst hc2
+                intro sg hsg
+                simp only [segs, if_true, List.mem_cons] at hsg
+                rcases hsg with rfl | hsg
+                · cases c0 <;> simp [isPushCall] at hc1
+                  simp [SegOk, accOf]
+                · exact ih' sg (by simpa [accOf] using hsg)
+              · simp at h1
+            | pop y b =>
+              cases b with
+              | true =>
+                dsimp only at h1
+                split at h1
+                · rename_i hc; obtain rfl := Option.some.inj h1
+                  obtain ⟨_, hc2⟩ := hc
+                  subst hc2
+                  intro sg hsg
+                  simp only [segs, if_true, List.mem_cons] at hsg
+                  rcases hsg with rfl | hsg
+                  · simp [SegOk, accOf]
+                  · exact ih' sg (by simpa [accOf] using hsg)
+                · simp at h1
+              | false =>
+                dsimp only at h1
+                split at h1
+                · rename_i hc; obtain rfl := Option.some.inj h1
+                  obtain ⟨_, hc2⟩ := hc
+                  subst hc2
+                  intro sg hsg
+                  simp only [segs, if_true, List.mem_cons] at hsg
+                  rcases hsg with rfl | hsg
+                  · simp [SegOk, accOf]
+                  · exact ih' sg (by simpa [accOf] using hsg)
+                · simp at h1
+            | len n =>
+              dsimp only at h1
+              split at h1
+              · rename_i hc; obtain rfl := Option.some.inj h1
+                obtain ⟨_, hc2⟩ := hc
+                subst hc2
+                intro sg hsg
+                simp only [segs, if_true, List.mem_cons] at hsg
+                rcases hsg with rfl | hsg
+                · simp [SegOk, accOf]
+                · exact ih' sg (by simpa [accOf] using hsg)
+              · simp at h1
+            | panic => simp at h1
+      · rw [if_neg ht] at h1
+        obtain rfl := Option.some.inj h1
+        intro sg hsg
+        apply ih' sg
+        cases e with
+        | lin l =>
+          have : l.tid ≠ j := by cases l <;> simpa [TEv.tid, Lin.tid] using ht
+          simpa [segs, this] using hsg
+        | ret k r =>
+          have : k ≠ j := by simpa [TEv.tid] using ht
+          simpa [segs, this] using hsg
+
 end Golib.C11
